@@ -1,3 +1,4 @@
+#![allow(static_mut_refs, unused_imports, dead_code, unused_unsafe)]
 // Kani harnesses for src/crc.rs
 use super::*;
 use crate::verif_support::refs::{ref_crc_step, ref_crc_update};
